@@ -437,3 +437,59 @@ def register(reg):
 
     proxy_pool_ctor("httpcore._async.http_proxy.AsyncHTTPProxy")
     proxy_pool_ctor("httpcore._async.socks_proxy.AsyncSOCKSProxy")
+
+    # ================================================================== is_socket_readable
+    POLL = "pyvc.PollObject"
+    reg.ext_class(POLL)
+    reg.module_heads = set(reg.module_heads) | {"select"}
+    reg.consts["select.POLLIN"] = VInt(1)
+
+    @reg.intrinsic("select.poll")
+    def select_poll(it, st, args, kwargs, node):
+        o = it.eng.alloc(st, POLL, "poll")
+        it.emit(st, "rt.poll.new", node, obj=o)
+        return o
+
+    @reg.method(POLL, "register")
+    def poll_register(it, st, self_v, args, kwargs, node):
+        it.emit(st, "rt.poll.register", node, obj=self_v, fd=args[0])
+        return NONE
+
+    @reg.method(POLL, "poll")
+    def poll_poll(it, st, self_v, args, kwargs, node):
+        # poll() has no descriptor limit; returns the (possibly empty) list of ready descriptors
+        it.emit(st, "rt.poll.poll", node, obj=self_v, timeout=args[0] if args else NONE)
+        st.counter += 1
+        return VVal(z3.Const(f"poll_ready!{st.counter}", ValS))
+
+    @reg.intrinsic("select.select")
+    def select_select(it, st, args, kwargs, node):
+        # select() raises ValueError("filedescriptor out of range in select()") for a descriptor >= FD_SETSIZE (1024): a process
+        # with many open files gets there easily - which is why the package polls wherever poll() exists
+        eng = it.eng
+        it.emit(st, "rt.select.select", node, args=list(args))
+        if eng.choose(st, 2, f"select@{node.lineno}", ["ready-lists", "ValueError"]) == 1:
+            eng.raise_(st, "ValueError", tag={"from": "select.select"})
+        st.counter += 1
+        return VTuple([VVal(z3.Const(f"rready!{st.counter}", ValS)), VList([]), VList([])])
+
+    def _getattr_select(it, st, args, kwargs, node):
+        raise Unsupported("getattr")
+
+    reg.val_methods.setdefault("fileno", lambda it, st, recv, args, kwargs, node: it.eng.fresh(st, "int", "fd"))
+
+    @reg.contract
+    class IsSocketReadable(Contract):
+        """has_expired() of every idle HTTP/1.1 connection calls this from inside the pool's assignment pass: an exception here
+        aborts the pass and loses the list of connections it had already taken out of the pool for closing (C06), and reaches
+        the caller as a bare ValueError (C15).  On a platform with poll() it must poll (seed C06-w5-1 switched to select())."""
+        key = "httpcore._utils.is_socket_readable"
+        props = ("C06", "C15", "C09", "C01")
+        params = {"sock": "val"}
+        suspends = False
+        raises = []
+        raises_props = ("C06", "C15", "C09")
+        result_kind = "bool"
+
+        def checks(self, c):
+            return [("no_descriptor_limited_select_where_poll_exists", ("C06", "C15", "C09"), len(c.events("rt.select.select")) == 0)]
